@@ -1,4 +1,5 @@
 import Resgate.Gw.Conn
+import Resgate.Gw.Reset
 
 /-
 Scheduler (run to quiescence in global enqueue order), stimulus parsing and snapshot printing.
@@ -247,20 +248,13 @@ def systemEvent (subject abs : String) : M Unit := do
     let (rs, acc) := match body.splitOn "|" with
       | [r, a] => ((r.drop 10).toString, (a.drop 7).toString)
       | _ => ("", "")
-    let pats := fun (s : String) =>
-      (if s == "" then [] else s.splitOn ";").filterMap fun p =>
-        let pat := parsePattern (toBytes p)
-        if pat.isValid then some pat else none
+    let pats := fun (s : String) => validPats (if s == "" then [] else s.splitOn ";")
     let g ← get
     let t ← if g.resetThrottle > 0 then do pure (some (← newThrottle g.resetThrottle)) else pure none
     let idx := (← get).index
     let sorted := sortKV idx
-    for p in [true, false] do
-      let ps := if p then pats rs else pats acc
-      for (name, eid) in sorted do
-        for pat in ps do
-          if pat.matches (toBytes name) then
-            if p then cacheEnqueue eid (.resetResource t) else cacheEnqueue eid (.resetAccess t)
+    for eid in resetMatches sorted (pats rs) do cacheEnqueue eid (.resetResource t)
+    for eid in resetMatches sorted (pats acc) do cacheEnqueue eid (.resetAccess t)
   else if subject == "system.tokenReset" then
     -- tokenreset:tids=T1;T2|subject=s
     let body := (abs.drop 11).toString
